@@ -420,9 +420,10 @@ func (v *BackendView) parseREST(sc *Scenario, r *http.Request) {
 		d, err := decompressBytes(comp, body)
 		if err != nil {
 			v.problem("REST body declared %s does not inflate: %v", comp, err)
-			return
+			body = nil
+		} else {
+			body = d
 		}
-		body = d
 	}
 	for _, mi := range candidates {
 		for _, rule := range bindingsFor(sc, mi.Service, mi.Name) {
@@ -709,6 +710,12 @@ func buildResponse(sc *Scenario, v *BackendView) *builtResponse {
 
 func respond(sc *Scenario, v *BackendView, w http.ResponseWriter) {
 	resp := buildResponse(sc, v)
+	for _, o := range sc.Backend.Override {
+		resp.Header.Del(o.K)
+		if o.V != "" {
+			resp.Header.Set(o.K, o.V)
+		}
+	}
 	applyResponseFault(sc, v, resp)
 	writeResponse(sc, resp, w)
 }
@@ -752,7 +759,7 @@ func writeResponse(sc *Scenario, resp *builtResponse, w http.ResponseWriter) {
 	} else if b.DeclareCL {
 		h.Set("Content-Length", strconv.Itoa(len(resp.Body)))
 	}
-	if resp.Status != 200 || len(resp.Body) == 0 || b.Kind == "raw" {
+	if resp.Status != 200 || len(resp.Body) == 0 || b.Kind == "raw" || b.ExplicitHead {
 		w.WriteHeader(resp.Status)
 	}
 	fl, _ := w.(http.Flusher)
@@ -761,6 +768,9 @@ func writeResponse(sc *Scenario, resp *builtResponse, w http.ResponseWriter) {
 	writes := 0
 	for len(body) > 0 {
 		n := len(body)
+		if b.WriteChunk > 0 && n > b.WriteChunk {
+			n = b.WriteChunk
+		}
 		if i < len(b.WriteSplits) {
 			if s := b.WriteSplits[i]; s > 0 && s < n {
 				n = s
